@@ -326,6 +326,39 @@ fn main() { let v = vec![Ptr(std::ptr::null()), Ptr(8 as *const u8)]; let x = Se
 struct Holder<A> { a: A, n: u8 }
 fn main() { let v = vec![Ptr(std::ptr::null())]; let x = Holder { a: SerIter::from(v.iter()), n: 1 }; run(&x); }
 ''', 'reject-or-panic'))
+    # layer 2, built-in deep-copy constructors that are Copy: a hand-written wrapper declared zero-copy whose
+    # verified flag is, as in derived code, the conjunction of its fields' flags (but without the compile-time bound)
+    HAND = '''
+#[derive(Clone, Copy, Debug)]
+#[repr(C)]
+pub struct Hand<F>(pub F);
+impl<F> CopyType for Hand<F> { type Copy = Zero; }
+impl<F> MaxSizeOf for Hand<F> { fn max_size_of() -> usize { core::mem::align_of::<Self>() } }
+impl<F> TypeHash for Hand<F> { fn type_hash(h: &mut impl core::hash::Hasher) { use core::hash::Hash; "Hand".hash(h); } }
+impl<F> AlignHash for Hand<F> { fn align_hash(h: &mut impl core::hash::Hasher, o: &mut usize) { use core::hash::Hash; core::mem::align_of::<Self>().hash(h); *o += core::mem::size_of::<Self>(); } }
+impl<F: SerializeInner + Copy + 'static> SerializeInner for Hand<F> {
+    type SerType = Self;
+    const IS_ZERO_COPY: bool = F::IS_ZERO_COPY;
+    const ZERO_COPY_MISMATCH: bool = false;
+    fn _serialize_inner(&self, backend: &mut impl epserde::ser::WriteWithNames) -> epserde::ser::Result<()> {
+        epserde::ser::helpers::serialize_zero(backend, self)
+    }
+}
+'''
+    static_bytes = 'static B: [u8; 3] = [1, 2, 3];'
+    for (hname, hty, hval) in [
+        ('option', 'Option<u8>', 'Some(3)'), ('option_none', 'Option<u64>', 'None'), ('bound', 'core::ops::Bound<u8>', 'core::ops::Bound::Included(1)'),
+        ('controlflow', 'core::ops::ControlFlow<u8, u16>', 'core::ops::ControlFlow::Continue(7)'), ('slice_ref', "&'static [u8]", '&B[..]'),
+        ('array_of_option', '[Option<u8>; 2]', '[Some(1), None]'), ('option_of_array', 'Option<[u16; 2]>', 'Some([1, 2])'),
+        ('nested_hand', 'Hand<Option<u8>>', 'Hand(Some(1))'), ('array_of_slice_ref', "[&'static [u8]; 1]", '[&B[..]]'),
+    ]:
+        for (wname, wexpr) in [('bare', 'x'), ('vec', 'vec![x; 2]'), ('array', '[x; 2]')]:
+            out.append(('hand_%s_%s' % (hname, wname), HEAD + RUNNER + HAND + static_bytes + '''
+fn main() { let x: Hand<%s> = Hand(%s); let y = %s; run(&y); }
+''' % (hty, hval, wexpr), 'reject-or-panic'))
+    out.append(('control_valid_hand', HEAD + RUNNER + HAND + '''
+fn main() { run(&vec![Hand([1u8, 2]); 3]); run(&[Hand(Hand((1u16, 2u16))); 2]); }
+''', 'control'))
     # controls: valid definitions must serialise (the probe harness itself works)
     out.append(('control_valid_zero_copy', HEAD + RUNNER + '''
 #[derive(Epserde, Debug, Clone, Copy)]
